@@ -299,6 +299,8 @@ KIND_DEFAULT = {'b': False, 'i': 0, 'f': 0.0}
 
 
 def _kind_of_dtype(dtype):
+    if isinstance(dtype, type) and issubclass(dtype, int) and dtype is not bool:
+        dtype = int
     k = onp.dtype(dtype if dtype is not None else float).kind
     return {'b': 'b', 'i': 'i', 'u': 'i', 'f': 'f'}[k]
 
@@ -346,10 +348,45 @@ class SInt:
         return self
 
     def __int__(self):
+        """a python int is demanded (range(), int() through C code): fork the exploration over the possible values"""
         if num(self.z):
             return int(self.z)
-        raise Unsupported('int() of a symbolic size')
+        ex = px.cur()
+        if ex is None or not ex.symbolic:
+            raise Unsupported('int() of a symbolic size outside an exploration')
+        keys = sorted(self.z.d)
+        for k in keys[:-1]:
+            if ex.branch(self.z.d[k]):
+                return k
+        return keys[-1]
     __index__ = __int__
+
+    def _cmp(self, o, f):
+        z, _ = SInt.parts(o)
+        r = f(self.z, z)
+        return px.SymBool(r) if isz(r) else bool(r)
+
+    def __eq__(self, o):
+        return self._cmp(o, i_eq)
+
+    def __ne__(self, o):
+        return self._cmp(o, lambda a, b: b_not(i_eq(a, b)))
+
+    def __lt__(self, o):
+        return self._cmp(o, i_lt)
+
+    def __le__(self, o):
+        return self._cmp(o, i_le)
+
+    def __gt__(self, o):
+        return self._cmp(o, lambda a, b: i_lt(b, a))
+
+    def __ge__(self, o):
+        return self._cmp(o, lambda a, b: i_le(b, a))
+
+    def __bool__(self):
+        r = self != 0
+        return bool(r)
 
     def __repr__(self):
         return 'SInt(%s <= %d)' % (self.z, self.cap)
@@ -486,6 +523,31 @@ class PA:
         return PA(o, 'i', self.ext, None if (self.ecap is None or c < 0) else self.ecap * int(c))
     __rmul__ = __mul__
 
+    def any(self, axis=None):
+        return ONP().any(self, axis)
+
+    def all(self, axis=None):
+        return ONP().all(self, axis)
+
+    def sum(self, axis=None):
+        return ONP().sum(self, axis)
+
+    def sort(self):
+        r = _sort(self)
+        self.data = r.data
+
+    def flatten(self):
+        return self.ravel()
+
+    def astype(self, dtype):
+        k = _kind_of_dtype(dtype)
+        if k == self.kind:
+            return self.copy()
+        raise Unsupported('astype from %s to %s' % (self.kind, k))
+
+    def __bool__(self):
+        raise ValueError('The truth value of an array with more than one element is ambiguous. Use a.any() or a.all()')
+
     # -- functional update of jax arrays
     @property
     def at(self):
@@ -499,6 +561,16 @@ class PA:
             if key.kind == 'i':
                 return _gather(self, key)
             raise IndexError('arrays used as indices must be of integer (or boolean) type')
+        if isinstance(key, tuple) and any(isinstance(k, PA) for k in key):
+            pas = [i for i, k in enumerate(key) if isinstance(k, PA)]
+            rest = [k for k in key if not isinstance(k, PA)]
+            if pas != [0] or key[0].kind != 'i' or not all(isinstance(k, (int, onp.integer)) for k in rest):
+                raise Unsupported('indexing with key %r' % (key,))
+            self._need_dense('advanced indexing')
+            col = self.data[(slice(None),) + tuple(int(k) for k in rest)]
+            return _gather(PA(col.copy(), self.kind, None, self.ecap), key[0])
+        if isinstance(key, slice) and self.ndim == 1 and not self.dense:
+            return _slice_get(self, key)
         key = _concrete_key(key)
         self._need_dense('basic/fancy indexing')
         r = self.data[key]
@@ -763,6 +835,108 @@ def _slice_assign(a, key, value):
         a.ecap = None if (a.ecap is None or value.ecap is None) else max(a.ecap, value.ecap)
 
 
+def _slice_get(a, key):
+    """a[b:e] of a 1-d array of symbolic length (b, e python ints or symbolic sizes; negative python bounds count from the end)"""
+    if key.step not in (None, 1):
+        raise Unsupported('strided slice of an array with a symbolic extent')
+    n, L = a.data.shape[0], a.length()
+
+    def bound(v, dflt):
+        if v is None:
+            return dflt
+        v = raw(v)
+        if num(v) and int(v) < 0:
+            return i_max(i_add(L, int(v)), 0)
+        return i_min(v, L)
+    start, stop = bound(key.start, 0), bound(key.stop, L)
+    cnt = i_max(i_sub(stop, start), 0)
+    out = onp.empty((n,), dtype=object)
+    dflt = KIND_DEFAULT[a.kind]
+    for q in range(n):
+        out[q] = select([(i_eq(i_add(start, q), p), a.data[p]) for p in range(q, n)], dflt, a.kind)
+    return PA(out, a.kind, (cnt,), a.ecap)
+
+
+def _as_pa1(x):
+    if isinstance(x, PA):
+        if x.ndim != 1:
+            raise Unsupported('%d-d array where a 1-d array is modelled' % x.ndim)
+        return x
+    a = onp.asarray(x)
+    if a.ndim != 1:
+        raise Unsupported('%d-d array where a 1-d array is modelled' % a.ndim)
+    return PA(_as_obj(a), _kind_of_dtype(a.dtype), None, (int(a.max()) if (a.size and a.dtype.kind in 'iu' and a.min() >= 0) else (0 if not a.size else None)))
+
+
+def _concatenate(arrs):
+    """concatenation of 1-d arrays of possibly symbolic lengths: entry p of array k sits at offset_k + p"""
+    arrs = [_as_pa1(a) for a in arrs]
+    kinds = {a.kind for a in arrs if a.data.shape[0]}
+    kind = 'f' if 'f' in kinds else ('i' if 'i' in kinds else (arrs[0].kind if not kinds else kinds.pop()))
+    cap = sum(a.data.shape[0] for a in arrs)
+    offs, off = [], 0
+    for a in arrs:
+        offs.append(off)
+        off = i_add(off, a.length())
+    total = off
+    symbolic = any(not a.dense for a in arrs)
+    out = onp.empty((cap,), dtype=object)
+    dflt = KIND_DEFAULT[kind]
+    for q in range(cap):
+        cases = []
+        for a, o in zip(arrs, offs):
+            for p in range(min(q, a.data.shape[0] - 1) + 1):
+                cases.append((b_and(i_lt(p, a.length()), i_eq(i_add(o, p), q)), a.data[p]))
+        out[q] = select(cases, dflt, kind)
+    ecaps = [a.ecap for a in arrs if a.data.shape[0]]
+    return PA(out, kind, (total,) if symbolic else None, None if any(e is None for e in ecaps) else max(ecaps + [0]))
+
+
+def _sort(a):
+    """ascending sort of a 1-d integer array of symbolic length: the entry of (stable) rank r goes to position r"""
+    a = _as_pa1(a)
+    if a.kind != 'i':
+        raise Unsupported('sort of a %s array' % a.kind)
+    n, L = a.data.shape[0], a.length()
+    valid = [i_lt(p, L) for p in range(n)]
+    ranks = []
+    for p in range(n):
+        before = []
+        for q in range(n):
+            if q == p:
+                continue
+            lt = i_lt(a.data[q], a.data[p]) if q > p else i_le(a.data[q], a.data[p])
+            before.append(b_and(valid[q], lt))
+        ranks.append(count(before))
+    out = onp.empty((n,), dtype=object)
+    for r in range(n):
+        out[r] = select([(b_and(valid[p], i_eq(ranks[p], r)), a.data[p]) for p in range(n)], 0, 'i')
+    return PA(out, 'i', a.ext, a.ecap)
+
+
+def _truth(a):
+    """list of (valid, nonzero) per entry of an array"""
+    if not isinstance(a, PA):
+        raise Unsupported('truth values of %r' % (a,))
+    if a.ndim == 1:
+        ents, valid = list(a.data), [i_lt(p, a.length()) for p in range(a.data.shape[0])]
+    else:
+        a._need_dense('reduction')
+        ents = list(a.data.reshape(-1))
+        valid = [True] * len(ents)
+    if a.kind == 'b':
+        nz = ents
+    elif a.kind == 'i':
+        nz = [b_not(i_eq(x, 0)) for x in ents]
+    else:
+        nz = [(x != 0) for x in ents]
+    return valid, nz
+
+
+def _wrap_bool(r):
+    return px.SymBool(r) if isz(r) else bool(r)
+
+
 def _block_ravel(a):
     """C-order ravel of a 2-d block of symbolic shape (m, n): flat position of (r, c) is r*n + c"""
     cm, cn = a.data.shape
@@ -858,6 +1032,57 @@ class ONP:
             return SInt(s, a.ecap * len(flat))
         raise Unsupported('sum of a %s array' % a.kind)
 
+    def concatenate(self, arrs, axis=0):
+        arrs = list(arrs)
+        if not any(isinstance(a, PA) for a in arrs):
+            return onp.concatenate(arrs, axis=axis)
+        if axis != 0:
+            raise Unsupported('concatenate along axis %r' % (axis,))
+        return _concatenate(arrs)
+
+    def hstack(self, arrs):
+        return self.concatenate(arrs)
+
+    def append(self, a, b, axis=None):
+        return self.concatenate([a, onp.atleast_1d(b) if not isinstance(b, PA) else b])
+
+    def sort(self, a, axis=-1, **k):
+        if not isinstance(a, PA):
+            return onp.sort(a, axis=axis, **k)
+        return _sort(a)
+
+    def any(self, a, axis=None):
+        if not isinstance(a, PA):
+            return onp.any(a, axis=axis)
+        valid, nz = _truth(a)
+        return _wrap_bool(b_or(*[b_and(v, x) for v, x in zip(valid, nz)]))
+
+    def all(self, a, axis=None):
+        if not isinstance(a, PA):
+            return onp.all(a, axis=axis)
+        valid, nz = _truth(a)
+        return _wrap_bool(b_and(*[b_implies(v, x) for v, x in zip(valid, nz)]))
+
+    def count_nonzero(self, a, axis=None):
+        if not isinstance(a, PA):
+            return onp.count_nonzero(a, axis=axis)
+        valid, nz = _truth(a)
+        return SInt(count([b_and(v, x) for v, x in zip(valid, nz)]), len(nz))
+
+    def size(self, a, axis=None):
+        return a.size if isinstance(a, PA) else onp.size(a, axis)
+
+    def shape(self, a):
+        return a.shape if isinstance(a, PA) else onp.shape(a)
+
+    def ravel(self, a):
+        return a.ravel() if isinstance(a, PA) else onp.ravel(a)
+
+    def invert(self, a):
+        return ~a
+
+    logical_not = invert
+
     def square(self, x):
         if isinstance(x, SInt):
             return SInt(table_mul(x.z, x.cap, x.z), x.cap * x.cap)
@@ -897,6 +1122,21 @@ class JNP:
         import jax.numpy as jnp
         return jnp.sum(a, axis=axis)
 
+    def any(self, a, axis=None):
+        return ONP().any(a, axis)
+
+    def all(self, a, axis=None):
+        return ONP().all(a, axis)
+
+    def count_nonzero(self, a, axis=None):
+        return ONP().count_nonzero(a, axis)
+
+    def asarray(self, v, dtype=None, **k):
+        return ONP().asarray(v, dtype=dtype, **k)
+
+    def array(self, v, dtype=None, **k):
+        return ONP().array(v, dtype=dtype, **k)
+
 
 def load_function_space_module():
     """the REAL source of optimism/FunctionSpace.py executed in a fresh namespace; only the names `onp` and `np` of that
@@ -904,7 +1144,30 @@ def load_function_space_module():
     mod = px.load_module(REL)
     mod.onp = ONP()
     mod.np = JNP()
+    install_builtin_shims(mod)
     return mod
+
+
+class IntShim(int):
+    """the builtin `int` as the executed source sees it: int(symbolic size) is the size itself; everything else (including
+    `dtype=int`, isinstance checks) is the real int"""
+
+    def __new__(cls, x=0, *a):
+        if isinstance(x, SInt):
+            return x
+        return int(x, *a)
+
+
+def _len_shim(x):
+    if isinstance(x, PA) and x.ext[0] is not None:
+        return SInt(x.ext[0], x.data.shape[0])
+    return len(x)
+
+
+def install_builtin_shims(mod):
+    b = mod.__dict__['__builtins__']
+    b['int'] = IntShim
+    b['len'] = _len_shim
 
 
 # ------------------------------------------------------------------------------------------ views of results (symbolic or real)
